@@ -219,6 +219,54 @@ claim("C13", "proof", "Lean 4 theorems about the stochastic step formulas (incl.
       COMMON_NOTE + "Partial: reproducibility is a correspondence result (numpy's Generator and numba's RNG are external); "
       "square roots are parameters with hypotheses in the theorems.", "DESIGN.md section 6, C13; notes/C13.md")
 
+claim("C06", "proof", "Lean 4 theorems about the steppers (amplification factors, order conditions of the extracted tableaux, adaptive-loop invariants) + tableau extractor + trace correspondence",
+      "Every solver step (Euler, RK4 from the extracted tableau, implicit/Crank-Nicolson fixed-point loops, two-step "
+      "Adams-Bashforth with its persistent previous state for both the Python and the compiled loop), the fixed-step loop with "
+      "its rounded step count, both adaptive loops with the dt controller and the Richardson / RKF45 error estimators are "
+      "modelled (Model/Solvers.lean); the Butcher tableaux, AB2 weights and controller constants are EXTRACTED from the source "
+      "by an ast walk on every run (Generated/Tableau.lean) so the order-condition theorems are re-checked against what the "
+      "code says now. 79 theorems: amplification factors of every scheme on u'=a u, stage times via exact quadrature of cubic "
+      "rates, the 8 order-4 conditions of the returned RKF45 state and the 17 order-5 conditions of c+r, error estimate = "
+      "difference of the two, implicit/CN iterates in closed form for every explicit fraction, AB2 recursion and first step, "
+      "fixed stepper = `steps` applications of the one-step map, adaptive loops never end before t_end and overshoot by less "
+      "than dt_min (exactly t_end otherwise), global error <= sum of local errors for dissipative problems, adaptive Euler / "
+      "Richardson global error <= steps*tol over the reals. The harness compares real fixed-step runs exactly (Rat / Gaussian "
+      "rationals) and adaptive runs bit-exactly with the Float model (accepted/rejected trace, final time, state) on numpy, "
+      "numba source semantics and a JIT subset, and monitors end time and global error on the real solvers.",
+      COMMON_NOTE + "Partial: for adaptive Runge-Kutta the estimate |5th-4th| is not a bound of the error of the returned "
+      "4th-order state, so the literal `steps x tolerance` bound fails by the fifth-order remainder (known finding, narrow "
+      "key); scipy's integrator is validated only; compiled loops use fast-math (times may differ by an ulp).",
+      "DESIGN.md section 6, C06; notes/C06.md")
+
+claim("C11", "translation_validation", "Lean 4 semantics of the expression language (eval, substitution, aliases, signature, differentiation soundness) + differential validation of the sympy/lambdify/numba pipeline",
+      "The expression language py-pde accepts (numbers, variables, constants, indexed symbols, arithmetic, elementary "
+      "functions, heaviside, comparisons, user functions, arrays of rank 1 and 2), what py-pde adds around sympy (coordinate "
+      "aliases, signature and synonyms, constants as partial application, the calling convention) and symbolic differentiation "
+      "are modelled (Model/Expr.lean) at Rat, Float, the reals and fields of cell values. 51 theorems: evaluation is "
+      "compositional and commutes with substitution, alias replacement and prepare are sound, argument order of the signature "
+      "is irrelevant for named environments, constants = partial application in any order, heaviside/comparison semantics "
+      "incl. the value at 0, tensors evaluate componentwise and fields pointwise, diff_sound: the derivative program denotes "
+      "the derivative (HasDerivAt over the reals, with explicit side conditions). Each generated program is parsed by the real "
+      "code and evaluated through every route (sympy -> numpy lambdify, numba source semantics, JIT subset, fields, "
+      "from_expression, differentiate) and compared with the Lean evaluation of the same text (well-conditioned points, "
+      "conditioning analysis decides the tolerance).",
+      COMMON_NOTE + "Translation validation: sympy's parser/simplifier, lambdify and numba are external and only tested "
+      "differentially per generated program; refusals (unsupported functions) are counted, returned values judged strictly.",
+      "DESIGN.md section 6, C11; notes/C11.md")
+
+claim("C10", "translation_validation", "Lean 4 theorems: every PDE class's rate equals the semantics of its `expression` text (with per-operator boundary conditions) + differential validation of class vs expression vs compiled rates",
+      "The eight PDE classes' evolution rates with abstract operators, their `expression` templates (expr_prod printing incl. "
+      "the 0/1/-1 branches) and the generic PDE's operator/boundary-condition lookup are modelled (Model/PDEs.lean on top of "
+      "Model/Expr.lean). 40 theorems: per class rate = denotation of the printed expression, each operator uses its own "
+      "boundary condition, the wave equation as a first-order system, Klein-Gordon with zero mass, and the exact gap between "
+      "the grouped text and the split class implementation of Kuramoto-Sivashinsky / Swift-Hohenberg for affine (non-linear) "
+      "operators-with-BC. The harness compares, per case, the class's numpy rate, its compiled rate (numba source semantics + "
+      "JIT subset), the generic PDE built from the class's expression, `evaluate`, and the Lean composition applied to the "
+      "operator results measured on py-pde's own field API, at two times.",
+      COMMON_NOTE + "Translation validation: the operators themselves are measured, not modelled here (C01/C02/C18 own them); "
+      "only their composition, parameters and boundary-condition routing are modelled.",
+      "DESIGN.md section 6, C10; notes/C10.md")
+
 # properties not (yet) decided by the machinery
 NOT_APPLICABLE = {}
 
